@@ -462,6 +462,7 @@ fn harnesses() -> Vec<Harness> {
         Harness { name: "H7", what: "one template whose include name is dynamic, rendered concurrently with data naming different partials (state memoised inside the include renderable would cross over)", plan: vec![vec![Op::Render(9)], vec![Op::RenderB(9)]] },
         Harness { name: "H8", what: "one template with every argument position dynamic (partial name, range bound, limit, cycle group, case target, date format, cols), two data objects", plan: vec![vec![Op::Render(8)], vec![Op::RenderB(8)]] },
         Harness { name: "H9", what: "two threads render a template whose loops break / continue with text after the interrupt (interrupt state must be per render)", plan: vec![vec![Op::Render(10)], vec![Op::Render(10)]] },
+        Harness { name: "H10", what: "four threads first-touch the same not-yet-compiled partial at once (more contenders than any other harness)", plan: vec![vec![Op::Render(6)], vec![Op::Render(6)], vec![Op::StoreTryGet("m")], vec![Op::Render(6)]] },
         Harness { name: "H5", what: "a render that fails midway (partial error, missing partial) while another renders", plan: vec![vec![Op::Render(4)], vec![Op::Render(3)], vec![Op::Render(5)]] },
     ]
 }
@@ -749,7 +750,7 @@ fn main() {
     // counterexample found has the fewest preemptions
     let tasks: Vec<(usize, usize, bool)> = if tier.thorough() {
         let mut t = vec![(0, 0, true)];
-        for (hi, maxb) in [(1usize, 5usize), (2, 4), (3, 4), (4, 3), (5, 4), (6, 5), (7, 3), (8, 3), (9, 3)] {
+        for (hi, maxb) in [(1usize, 5usize), (2, 4), (3, 4), (4, 3), (5, 4), (6, 5), (7, 3), (8, 3), (9, 2), (10, 3)] {
             for b in 0..=maxb {
                 t.push((hi, b, false));
             }
@@ -757,7 +758,7 @@ fn main() {
         t
     } else {
         let mut t = vec![];
-        for (hi, maxb) in [(0usize, 3usize), (1usize, 2usize), (2, 2), (3, 2), (4, 1), (5, 2), (6, 2), (7, 1), (8, 2), (9, 1)] {
+        for (hi, maxb) in [(0usize, 3usize), (1usize, 2usize), (2, 2), (3, 2), (4, 1), (5, 2), (6, 2), (7, 1), (8, 2), (9, 1), (10, 1)] {
             for b in 0..=maxb {
                 t.push((hi, b, false));
             }
